@@ -28,7 +28,7 @@ RULE = ('cases: (a) seeded random histories of 30-200 ops (add 45%/remove 25%/st
 ASSUMPTIONS = ['priorities are fixed while a system is registered (as the property states)',
                'systems do not override __eq__ (identity equality)',
                'the System/Collector subclasses used for logging only append to a list in execute()/collect()']
-FLOORS = {'quick': {'systems_whose_window_closes': 2061, 'systems_that_start_late': 2498, 'pattern_like_or_unnormalised_ids': 2400, 'cases_in_mode_debuglog': 169, 'cases_in_mode_warnings': 169, 'cases_in_mode_optimised': 169, 'failing_system_interrupt': 317, 'timesteps_with_a_failing_system': 1114, 'unrelated_models_constructed_mid_history': 1979, 'steps_after_in_call_change': 1763, 'steps_inside_multi_step_call': 5883, 'step_via_executeSystems': 3411, 'step_via_execute': 3434, 'falsy_system_objects': 3454, 'tie_pairs': 500, 'rejected_add': 50, 'rejected_remove': 50, 'steps_compared': 2000,
+FLOORS = {'quick': {'systems_whose_window_closes': 2061, 'systems_that_start_late': 2498, 'pattern_like_or_unnormalised_ids': 2400, 'cases_in_mode_debuglog': 169, 'cases_in_mode_warnings': 169, 'cases_in_mode_optimised': 169, 'failing_system_interrupt': 317, 'timesteps_with_a_failing_system': 1114, 'unrelated_models_constructed_mid_history': 1979, 'steps_after_in_call_change': 1679, 'steps_inside_multi_step_call': 5730, 'step_via_executeSystems': 3411, 'step_via_execute': 3434, 'falsy_system_objects': 3454, 'tie_pairs': 500, 'rejected_add': 50, 'rejected_remove': 50, 'steps_compared': 2000,
                     'reregistrations': 200, 'in_cycle_change_steps': 1000, 'big_histories': 6, 'big_systems': 300, 'two_model_histories': 500, 'contract:SystemManager.queue': 1000, 'reach:Core.SystemManager.add_system': 1000,
                     'reach:Core.SystemManager.execute_systems': 1000},
           'thorough': {'tie_pairs': 50000, 'rejected_add': 5000, 'rejected_remove': 5000, 'steps_compared': 100000,
